@@ -1,6 +1,7 @@
 package watch
 
 import (
+	"strings"
 	"sync"
 	"time"
 
@@ -64,7 +65,7 @@ func NewWatcher(name string, events, watch, exclude []string, t *task.Task) (w *
 	}
 
 	for _, p := range watch {
-		matches, err := doublestar.Glob(p)
+		matches, err := doublestar.Glob(collapseDoublestars(p))
 		if err != nil {
 			return nil, err
 		}
@@ -98,6 +99,22 @@ func NewWatcher(name string, events, watch, exclude []string, t *task.Task) (w *
 	}
 
 	return w, nil
+}
+
+// collapseDoublestars turns a run of "**" segments into a single one. They mean the same, but
+// doublestar.Glob (unlike doublestar.PathMatch) wants at least one directory for every further
+// "**", so "**/**/a.go" did not select a.go in the watched directory itself.
+func collapseDoublestars(pattern string) string {
+	segments := strings.Split(pattern, "/")
+	out := make([]string, 0, len(segments))
+	for i, s := range segments {
+		if s == "**" && i > 0 && segments[i-1] == "**" {
+			continue
+		}
+		out = append(out, s)
+	}
+
+	return strings.Join(out, "/")
 }
 
 // Run starts file watcher with provided TaskRunner
